@@ -164,6 +164,11 @@ struct Slot
     uint64_t next_frame_id = 0;
     int cycles = 0;
     bool can_restart = false; // stopped cleanly with a valid configuration
+    bool write_failed = false; // the last append reported a write failure
+    // every call of this cycle reported success so far and no injected
+    // failure landed in set/start (then the file must be exact at stop)
+    bool cycle_clean = false;
+    bool absorbed = false; // a failing write inside an append went unreported
 };
 
 struct FaultSpec
@@ -247,33 +252,43 @@ json_equal(const bigtiff::Json& a, const bigtiff::Json& b)
 }
 
 // ------------------------------------------------------------- C15 oracle
+// `frames`: what the chain must hold, in order; at least `min_n` of them (all
+// of them for a finished acquisition; after a failed append only the
+// acknowledged ones must be there, frames of the failed packet may follow).
+// `ov`: report under this oracle id instead of the C15 ones (C16 uses the same
+// judgement for "a failed write was reported by nobody and the data is gone").
 static void
-check_tiff(const Slot& s, const std::string& file, bool expect_metadata_in_tiff)
+check_tiff(const Slot& s, const std::string& file, bool expect_metadata_in_tiff,
+           const std::vector<FrameM>& frames, size_t min_n,
+           const char* ov = nullptr)
 {
     if (!simfs::exists(file))
-        oracle_fail("C15.file_missing", "%s: no file was written at %s",
+        oracle_fail(ov ? ov : "C15.file_missing", "%s: no file was written at %s",
                     s.kind.c_str(), file.c_str());
     SimBytes sb(file);
     const SimBytes* bytes = &sb;
     bigtiff::File t = bigtiff::parse(*bytes);
     if (!t.error.empty())
-        oracle_fail("C15.invalid_bigtiff",
+        oracle_fail(ov ? ov : "C15.invalid_bigtiff",
                     "%s (%zu frames appended, %llu bytes): %s", file.c_str(),
-                    s.cycle_frames.size(), (unsigned long long)bytes->size(),
+                    frames.size(), (unsigned long long)bytes->size(),
                     t.error.c_str());
-    if (t.ifds.size() != s.cycle_frames.size())
-        oracle_fail("C15.directory_count",
+    if (t.ifds.size() < min_n || t.ifds.size() > frames.size())
+        oracle_fail(ov ? ov : "C15.directory_count",
                     "%s: the directory chain has %zu entries but %zu frames "
-                    "were appended",
-                    file.c_str(), t.ifds.size(), s.cycle_frames.size());
+                    "were appended%s",
+                    file.c_str(), t.ifds.size(), min_n,
+                    min_n == frames.size()
+                      ? ""
+                      : " and acknowledged before an append failed");
     for (size_t i = 0; i < t.ifds.size(); ++i) {
         const bigtiff::Ifd& d = t.ifds[i];
-        const FrameM& f = s.cycle_frames[i];
+        const FrameM& f = frames[i];
         uint64_t w = 0, h = 0, bits = 0, fmt = 0, so = 0, sc = 0;
         if (!d.scalar(256, *bytes, &w) || !d.scalar(257, *bytes, &h) ||
             !d.scalar(258, *bytes, &bits) || !d.scalar(339, *bytes, &fmt) ||
             !d.scalar(273, *bytes, &so) || !d.scalar(279, *bytes, &sc))
-            oracle_fail("C15.missing_tag",
+            oracle_fail(ov ? ov : "C15.missing_tag",
                         "%s directory %zu lacks one of width/height/bits per "
                         "sample/sample format/strip offset/strip byte count",
                         file.c_str(), i);
@@ -284,7 +299,7 @@ check_tiff(const Slot& s, const std::string& file, bool expect_metadata_in_tiff)
                                    ? 2
                                    : 1);
         if (w != f.w || h != f.h || bits != 8 * bpp(f.type) || fmt != want_fmt)
-            oracle_fail("C15.wrong_image_description",
+            oracle_fail(ov ? ov : "C15.wrong_image_description",
                         "%s directory %zu says %llux%llu, %llu bits, format "
                         "%llu but frame %zu is %ux%u, %zu bits, format %llu",
                         file.c_str(), i, (unsigned long long)w,
@@ -298,7 +313,7 @@ check_tiff(const Slot& s, const std::string& file, bool expect_metadata_in_tiff)
             uint64_t d = sc < f.big_n ? so
                                       : compare_sparse(file, so, f.big_n, ex);
             if (d != UINT64_MAX)
-                oracle_fail("C15.wrong_pixels",
+                oracle_fail(ov ? ov : "C15.wrong_pixels",
                             "%s directory %zu: the strip (%llu bytes at %llu) "
                             "does not return frame %zu's %llu pixel bytes "
                             "unchanged (first difference at file offset %llu)",
@@ -312,14 +327,14 @@ check_tiff(const Slot& s, const std::string& file, bool expect_metadata_in_tiff)
         if (!f.big_n &&
             (sc < f.pixels.size() ||
              memcmp(strip.data(), f.pixels.data(), f.pixels.size()) != 0))
-            oracle_fail("C15.wrong_pixels",
+            oracle_fail(ov ? ov : "C15.wrong_pixels",
                         "%s directory %zu: the strip (%llu bytes at %llu) does "
                         "not return frame %zu's %zu pixel bytes unchanged",
                         file.c_str(), i, (unsigned long long)sc,
                         (unsigned long long)so, i, f.pixels.size());
         const bigtiff::Entry* de = d.find(270);
         if (!de || de->type != 2)
-            oracle_fail("C15.no_description",
+            oracle_fail(ov ? ov : "C15.no_description",
                         "%s directory %zu has no ASCII ImageDescription",
                         file.c_str(), i);
         std::string desc = bigtiff::ascii(*de, *bytes);
@@ -327,7 +342,7 @@ check_tiff(const Slot& s, const std::string& file, bool expect_metadata_in_tiff)
         std::string err;
         if (!bigtiff::parse_json(desc, &j, &err) ||
             j.kind != bigtiff::Json::Object)
-            oracle_fail("C15.description_not_json",
+            oracle_fail(ov ? ov : "C15.description_not_json",
                         "%s directory %zu: description is not a JSON object "
                         "(%s): %.200s",
                         file.c_str(), i, err.c_str(), desc.c_str());
@@ -340,7 +355,7 @@ check_tiff(const Slot& s, const std::string& file, bool expect_metadata_in_tiff)
             num(&j, "hardware_frame_id") != std::to_string(f.hw_id) ||
             num(ts, "runtime") != std::to_string(f.ts_rt) ||
             num(ts, "hardware") != std::to_string(f.ts_hw))
-            oracle_fail("C15.wrong_ids_in_description",
+            oracle_fail(ov ? ov : "C15.wrong_ids_in_description",
                         "%s directory %zu: description %.200s does not carry "
                         "frame_id=%llu hardware_frame_id=%llu runtime=%llu "
                         "hardware=%llu",
@@ -354,7 +369,7 @@ check_tiff(const Slot& s, const std::string& file, bool expect_metadata_in_tiff)
             if (bigtiff::parse_json(s.meta, &user, &err)) {
                 const bigtiff::Json* m = j.get("metadata");
                 if (!m || !json_equal(*m, user))
-                    oracle_fail("C15.metadata_missing",
+                    oracle_fail(ov ? ov : "C15.metadata_missing",
                                 "%s: the first frame's description %.200s "
                                 "does not carry the user's metadata %s",
                                 file.c_str(), desc.c_str(), s.meta.c_str());
@@ -362,7 +377,7 @@ check_tiff(const Slot& s, const std::string& file, bool expect_metadata_in_tiff)
         }
         if (i == 0 && expect_metadata_in_tiff && s.meta.empty() &&
             j.get("metadata"))
-            oracle_fail("C15.stale_metadata",
+            oracle_fail(ov ? ov : "C15.stale_metadata",
                         "%s: no metadata was configured for this acquisition "
                         "but the first frame carries some: %.200s",
                         file.c_str(), desc.c_str());
@@ -520,12 +535,19 @@ struct StorHarness : Harness
         p.seti("sched.strategy", ST_DEFAULT);
         Rng g(mix64(seed, 0x5107));
         char b[128];
-        if (profile == "sweep") {
+        if (profile == "sweep" || profile == "transient") {
             static const char* kinds[] = { "raw", "tiff", "tiffjson", "trash" };
             std::string kind = kinds[g.below(4)];
             if (kind == "trash" && g.chance(0.7))
                 kind = kinds[g.below(3)];
             int shape = (int)g.below(8);
+            if (profile == "transient") {
+                // C14/C15 under write faults: plain acquisitions of the
+                // property's own device kinds
+                kind = property == "C14" ? "raw"
+                                         : (g.chance(0.5) ? "tiff" : "tiffjson");
+                shape = (int)g.range(2, 4);
+            }
             snprintf(b, sizeof(b), "open slot=0 kind=%s", kind.c_str());
             p.ops.push_back(b);
             if (shape == 6) {
@@ -579,6 +601,14 @@ struct StorHarness : Harness
                     snprintf(b, sizeof(b), a.c_str(), 0);
                     p.ops.push_back(b);
                     p.ops.push_back("stop slot=0");
+                    if (g.chance(0.5)) {
+                        // ... including starting again without a new set
+                        p.ops.push_back("startafterfail slot=0");
+                        a = gen_append(g);
+                        snprintf(b, sizeof(b), a.c_str(), 0);
+                        p.ops.push_back(b);
+                        p.ops.push_back("stop slot=0");
+                    }
                 }
             }
             p.ops.push_back("close slot=0");
@@ -592,6 +622,8 @@ struct StorHarness : Harness
             // one fault kind family per plan keeps the sweep cheap; all are
             // covered across plans
             std::string k = fk[g.below(11)];
+            if (profile == "transient")
+                k = fk[g.below(6)]; // write faults only
             p.sets("fault", k);
             return p;
         }
@@ -693,6 +725,7 @@ struct StorHarness : Harness
         struct DeviceManager dm = { 0 };
         Slot slot[2];
         bool faults = false; // a fault is injected in this (sub)run
+        bool transient = false; // ... one that does not outlast the call it hits
         uint64_t pw0 = 0;
     };
 
@@ -836,6 +869,61 @@ struct StorHarness : Harness
         return false;
     }
 
+    static bool close_failed_since(uint64_t from_event)
+    {
+        auto& ev = simfs::events();
+        for (size_t i = (size_t)from_event; i < ev.size(); ++i)
+            if (ev[i].call == "close" && ev[i].result < 0)
+                return true;
+        return false;
+    }
+
+    // An append has reported a write failure and the device has left the
+    // running state.  Frames whose append was acknowledged earlier in this
+    // acquisition are still claimed by the property; the frames of the failed
+    // packet may or may not be there.  raw: the file begins with the
+    // acknowledged bytes.  tiff: when the fault was a passing one (so that the
+    // device's closing write can succeed), the file is a valid BigTIFF holding
+    // the acknowledged frames, possibly followed by leading frames of the
+    // failed packet, and nothing else.
+    static void judge_after_failed_append(Slot& s,
+                                          const std::vector<FrameM>& failed,
+                                          uint64_t ev0, bool transient)
+    {
+        const char* own = s.kind == "raw" ? "C14.acknowledged_bytes_damaged"
+                                          : "C15.acknowledged_frames_lost";
+        if (s.kind == "trash" || !oracle_gates(own) || s.cycle_frames.empty())
+            return;
+        storage_stop(s.dev); // what the sink does next
+        if (s.kind == "raw") {
+            const std::vector<uint8_t>* f = simfs::contents(s.path);
+            size_t d = 0;
+            if (f)
+                while (d < f->size() && d < s.cycle_bytes.size() &&
+                       (*f)[d] == s.cycle_bytes[d])
+                    ++d;
+            probe("reach.acknowledged_prefix_judged");
+            if (!f || d < s.cycle_bytes.size())
+                oracle_fail(own,
+                            "raw: an append failed after %zu bytes had been "
+                            "appended and acknowledged in this acquisition; "
+                            "%s no longer begins with them (first difference "
+                            "at byte %zu, file size %zu)",
+                            s.cycle_bytes.size(), s.path.c_str(), d,
+                            f ? f->size() : (size_t)0);
+            return;
+        }
+        // a fault that lasts defeats the closing write as well
+        (void)ev0;
+        if (!transient)
+            return;
+        std::vector<FrameM> frames = s.cycle_frames;
+        frames.insert(frames.end(), failed.begin(), failed.end());
+        probe("reach.acknowledged_prefix_judged");
+        check_tiff(s, s.kind == "tiff" ? s.path : s.path + "/data.tif",
+                   s.kind == "tiff", frames, s.cycle_frames.size());
+    }
+
     static bool create_failed_since(uint64_t from_event)
     {
         auto& ev = simfs::events();
@@ -854,6 +942,10 @@ struct StorHarness : Harness
         simdl::reset();
         Ctx* c = new Ctx();
         c->faults = fault.on;
+        c->transient = fault.on && (fault.kind == "eintr" ||
+                                    fault.kind == "eagain" ||
+                                    fault.kind == "eio1" ||
+                                    fault.kind == "zero3");
         if (!fault.on) {
             simfs::set_random_short_writes(plan.getd("short_p", 0));
             int64_t ze = plan.geti("zero_every", 0);
@@ -932,6 +1024,7 @@ struct StorHarness : Harness
                 enum DeviceStatusCode rc = storage_set(s.dev, &props);
                 storage_properties_destroy(&props);
                 s.configured = rc == Device_Ok;
+                s.write_failed = false;
                 if (while_running) {
                     // the HAL lets a running device be configured again: the
                     // device is then Armed for the new target and whatever it
@@ -956,7 +1049,18 @@ struct StorHarness : Harness
                                 "configuration (uri '%s', metadata '%s')",
                                 s.kind.c_str(), base.c_str(), s.meta.c_str());
                 s.path = path;
-            } else if (op.name == "start" || op.name == "restart") {
+            } else if (op.name == "start" || op.name == "restart" ||
+                       op.name == "startafterfail") {
+                if (op.name == "startafterfail") {
+                    // a write failed and the device fell back to Armed: the
+                    // user starts it again as it is, without configuring it
+                    // again (legal: Armed is what start requires)
+                    if (!s.dev || s.started || !s.write_failed ||
+                        storage_get_state(s.dev) != DeviceState_Armed)
+                        continue;
+                    s.configured = true;
+                    probe("reach.start_after_failed_append");
+                }
                 if (op.name == "restart") {
                     // same configuration again; the previous output was moved
                     // away (files are created without truncation, so acquiring
@@ -994,6 +1098,13 @@ struct StorHarness : Harness
                     continue;
                 }
                 s.started = true;
+                s.write_failed = false;
+                // (started again after a failure: same path as before, and
+                // acquiring onto an existing file is outside the properties)
+                s.cycle_clean = op.name != "startafterfail" &&
+                                !pwrite_failed_since(ev0) &&
+                                !create_failed_since(ev0);
+                s.absorbed = false;
                 s.cycle_bytes.clear();
                 s.cycle_frames.clear();
                 s.cycle_exts.clear();
@@ -1045,6 +1156,16 @@ struct StorHarness : Harness
                 }
                 bool wf = pwrite_failed_since(ev0);
                 enum DeviceState st = storage_get_state(s.dev);
+                if (wf && st == DeviceState_Running && rc == Device_Ok &&
+                    !bigop) {
+                    // Nobody was told.  That is fine if the device made up
+                    // for it (a retry that got everything into the file), and
+                    // only then: the file is judged as for a fault-free
+                    // acquisition when it is stopped.
+                    probe("reach.failed_write_not_reported");
+                    s.absorbed = true;
+                    wf = false;
+                }
                 if (wf) {
                     probe("reach.write_failed_in_append");
                     if (st == DeviceState_Running)
@@ -1056,6 +1177,10 @@ struct StorHarness : Harness
                                     s.kind.c_str(), (int)rc);
                     s.started = false;
                     s.configured = false;
+                    s.write_failed = true;
+                    s.cycle_clean = false;
+                    if (!bigop)
+                        judge_after_failed_append(s, fr, ev0, c->transient);
                     continue;
                 }
                 if (rc != Device_Ok) {
@@ -1068,6 +1193,7 @@ struct StorHarness : Harness
                                     s.kind.c_str());
                     s.started = false;
                     s.configured = false;
+                    s.cycle_clean = false;
                     continue;
                 }
                 if (!s.big) {
@@ -1094,6 +1220,11 @@ struct StorHarness : Harness
                     s.cycle_frames.push_back(f);
                 probe("n.frames_appended", fr.size());
             } else if (op.name == "stop") {
+                if (s.dev && !s.started && s.write_failed) {
+                    // what the sink does when an append fails
+                    storage_stop(s.dev);
+                    continue;
+                }
                 if (!s.dev || !s.started)
                     continue;
                 storage_stop(s.dev);
@@ -1101,9 +1232,26 @@ struct StorHarness : Harness
                 s.configured = false; // a fresh path is set for every cycle
                 s.can_restart = !c->faults;
                 s.cycles++;
-                if (c->faults)
-                    continue;
-                // ---- content oracles (fault-free class only)
+                // ---- content oracles: fault-free runs, and cycles of fault
+                // runs in which every call reported success and no injected
+                // failure landed in set, start or this stop (a failure inside
+                // an append that nobody reported must have been made up for)
+                const char* ov = nullptr;
+                if (c->faults) {
+                    if (!s.cycle_clean || s.big || pwrite_failed_since(ev0) ||
+                        close_failed_since(ev0))
+                        continue;
+                    const char* own = s.kind == "raw" ? "C14.file_differs"
+                                                      : "C15.invalid_bigtiff";
+                    if (!oracle_gates(own)) {
+                        // under C16 only an unreported failure is its business
+                        if (!s.absorbed ||
+                            !oracle_gates("C16.write_failure_not_reported"))
+                            continue;
+                        ov = "C16.write_failure_not_reported";
+                    }
+                    probe("reach.cycle_judged_in_fault_run");
+                }
                 if (s.kind == "raw" && s.big) {
                     uint64_t sz = simfs::size(s.path);
                     if (sz == UINT64_MAX)
@@ -1126,7 +1274,7 @@ struct StorHarness : Harness
                 } else if (s.kind == "raw") {
                     const std::vector<uint8_t>* f = simfs::contents(s.path);
                     if (!f)
-                        oracle_fail("C14.file_missing",
+                        oracle_fail(ov ? ov : "C14.file_missing",
                                     "raw: nothing was written at %s",
                                     s.path.c_str());
                     if (*f != s.cycle_bytes) {
@@ -1135,7 +1283,7 @@ struct StorHarness : Harness
                                (*f)[d] == s.cycle_bytes[d])
                             ++d;
                         oracle_fail(
-                          "C14.file_differs",
+                          ov ? ov : "C14.file_differs",
                           "raw: %s holds %zu bytes but the %zu bytes appended "
                           "in this acquisition (cycle %d of this device) were "
                           "expected; first difference at byte %zu",
@@ -1144,11 +1292,13 @@ struct StorHarness : Harness
                     }
                 } else if (s.kind == "tiff") {
                     if (!s.cycle_frames.empty())
-                        check_tiff(s, s.path, true);
+                        check_tiff(s, s.path, true, s.cycle_frames,
+                                   s.cycle_frames.size(), ov);
                 } else if (s.kind == "tiffjson") {
                     if (!s.cycle_frames.empty())
-                        check_tiff(s, s.path + "/data.tif", false);
-                    if (!s.meta.empty()) {
+                        check_tiff(s, s.path + "/data.tif", false,
+                                   s.cycle_frames, s.cycle_frames.size(), ov);
+                    if (!s.meta.empty() && !ov) {
                         const std::vector<uint8_t>* mj =
                           simfs::contents(s.path + "/metadata.json");
                         if (!mj ||
@@ -1305,16 +1455,23 @@ struct Reg
           "mixed with small packets) so that the running offset leaves the "
           "32-bit range while frames are still appended";
         c.profiles = { { "huge", 16, 160, false },
-                       { "raw", 30000, 600000, false } };
+                       { "raw", 30000, 600000, false },
+                       { "transient", 1000, 20000, true } };
         c.assumptions = {
             "every acquisition of a device writes to a fresh path (files are "
             "created without truncation; same-path reuse is outside the "
             "property)",
-            "only non-failing perturbations of write are injected here "
-            "(failing ones belong to C16)"
+            "profile transient injects a failing write at every position of a "
+            "history (EINTR, EAGAIN, EIO once or for good, ENOSPC, three "
+            "zero-length writes): an acquisition in which every call reported "
+            "success is judged like a fault-free one; after an append that "
+            "reported the failure only the bytes acknowledged before it are "
+            "claimed (the file must still begin with them)"
         };
         c.reach_probes = { "fault.pwrite_short", "fault.pwrite_zero",
-                           "n.cycles_checked", "reach.append_beyond_4GiB" };
+                           "n.cycles_checked", "reach.append_beyond_4GiB",
+                           "reach.acknowledged_prefix_judged",
+                           "reach.cycle_judged_in_fault_run" };
         register_check(c);
 
         c.property = "C15";
@@ -1333,8 +1490,16 @@ struct Reg
           "frames mixed with small packets): directories, strips and "
           "descriptions beyond the 4 GiB boundary";
         c.profiles = { { "huge", 16, 160, false },
-                       { "tiff", 25000, 500000, false } };
+                       { "tiff", 25000, 500000, false },
+                       { "transient", 600, 12000, true } };
         c.assumptions = {
+            "profile transient injects a failing write at every position of a "
+            "history: an acquisition in which every call reported success is "
+            "judged like a fault-free one; after an append that reported the "
+            "failure, and provided the fault was a passing one (a lasting one "
+            "defeats the closing write too), the file must be a valid BigTIFF "
+            "holding the frames acknowledged "
+            "before it (frames of the failed packet may follow, nothing else)",
             "only the stated clauses are judged (header, chain length and "
             "termination, offsets inside the file, no overlap, "
             "width/height/bits/sample format, strip bytes, description JSON "
@@ -1342,7 +1507,9 @@ struct Reg
             "tags and resolution values are not"
         };
         c.reach_probes = { "n.cycles_checked", "fault.pwrite_short",
-                           "reach.append_beyond_4GiB" };
+                           "reach.append_beyond_4GiB",
+                           "reach.acknowledged_prefix_judged",
+                           "reach.cycle_judged_in_fault_run" };
         register_check(c);
 
         c.property = "C16";
